@@ -104,6 +104,60 @@ def build_model(model, val):
     return p, b
 
 
+HISTS = ["add-last", "add-last-list", "flip-sense", "reobj", "readd-same-objective", "narrow-first"]
+
+
+def build_model_staged(model, val, hist):
+    """The same final model reached through an edit history:
+      -> (Problem in its FIRST state, Build, finish) where finish() applies the
+    remaining edits; after finish() the problem is `model` exactly.
+      add-last / add-last-list   the last constraint is added after the first solve (single / list form)
+      flip-sense                 first state has the opposite sense with the SAME objective object
+      reobj                      first state has another objective (2*obj + 1)
+      readd-same-objective       first state lacks the last constraint; afterwards the same objective
+                                 object is set again and then the constraint is added
+      narrow-first               first state is the problem  min lhs-rhs of constraint 0  s.t. constraint 0  (it may see
+                                 fewer variables, in other columns); then the objective is set and the other constraints added"""
+    from optyx import Problem
+    b = Build(val, bounds={k: tuple(cval(x, val) if x is not None else None for x in v) for k, v in model.get("bounds", {}).items()},
+              domains=model.get("domains", {}))
+    rs = [model["obj"]] + [c[1] for c in model["cons"]] + [c[2] for c in model["cons"]]
+    for r in rs:
+        for d in declare(r):
+            (b.V if d[0] == "vec" else b.M)(d)
+    p = Problem()
+    obj = b.S(model["obj"])
+    setter = lambda sense: (p.minimize if sense == "min" else p.maximize)  # noqa: E731
+    other = "max" if model["sense"] == "min" else "min"
+    cons = [make_constraint(b, kind, lhs, rhs) for kind, lhs, rhs in model["cons"]]
+    late = []
+    if hist in ("add-last", "add-last-list", "readd-same-objective") and cons:
+        late = [cons.pop()]
+    if hist == "narrow-first" and cons:
+        late = cons[1:]
+        cons = cons[:1]
+        first_obj = b.S(model["cons"][0][1]) - b.S(model["cons"][0][2])
+        if hasattr(first_obj, "get_variables") and first_obj.get_variables():
+            p.minimize(first_obj)
+        else:
+            setter(model["sense"])(obj)
+    elif hist == "flip-sense":
+        setter(other)(obj)
+    elif hist == "reobj":
+        setter(model["sense"])(obj * 2.0 + 1.0)
+    else:
+        setter(model["sense"])(obj)
+    for c in cons:
+        p.subject_to(c)
+
+    def finish():
+        if hist in ("flip-sense", "reobj", "readd-same-objective", "narrow-first"):
+            setter(model["sense"])(obj)
+        for c in late:
+            p.subject_to([c] if hist == "add-last-list" else c)
+    return p, b, finish
+
+
 def make_constraint(b, kind, lhs, rhs):
     L = b.S(lhs)
     Rr = b.S(rhs)
@@ -188,6 +242,23 @@ def lp_models(tier="quick"):
         out.append(dict(tag=f"con2:{tag}", obj=simple_obj, sense="max",
                         cons=[("le", f, Z), ("eq", ("bin", "+", f, ("num", 1.0)), ("num", S("r2"))), ("ge", f, ("bin", "*", ("num", 2.0), X))],
                         bounds=std_bounds))
+    # views of ONE vector that print alike: a strided slice keeps the name of the plain slice
+    # ("u[0:4]"), a reversed one the name of the whole vector; objective and constraints written on
+    # different views of u (the whole-vector shortcut must not conflate them)
+    U = ("vec", "u", 4)
+    ev, full, rev, ends = ("slice", U, 0, 4, 2), ("slice", U, 0, 4, None), ("slice", U, None, None, -1), ("slice", U, 0, 4, 3)
+    ub = dict(std_bounds, u=(S("lw"), S("uw")))
+    k4 = [S("k0"), S("k1"), S("k2"), 1.0]
+    for sense in ("min", "max"):
+        out.append(dict(tag=f"view:strided-obj/full-cons:{sense}", obj=("lincomb", [3.0, S("k0")], ev), sense=sense,
+                        cons=[("le", ("lincomb", [1.0, -1.0, S("k1"), -1.0], full), ("num", S("r0"))), ("le", ("vsum", full), ("num", S("r1")))], bounds=ub))
+        out.append(dict(tag=f"view:full-obj/strided-cons:{sense}", obj=("lincomb", k4, full), sense=sense,
+                        cons=[("ge", ("vsum", ev), ("num", S("r0"))), ("le", ("lincomb", [S("k1"), 2.0], ends), ("num", S("r1")))], bounds=ub))
+        out.append(dict(tag=f"view:reversed-obj/whole-cons:{sense}", obj=("lincomb", k4, rev), sense=sense,
+                        cons=[("le", ("lincomb", k4, U), ("num", S("r0"))), ("eq", ("vsum", rev), ("num", S("r1")))], bounds=ub))
+        out.append(dict(tag=f"view:strided-obj/strided-cons:{sense}", obj=("vsum", ev), sense=sense,
+                        cons=[("le", ("vsum", ends), ("num", S("r0")))], bounds=ub))
+        out.append(dict(tag=f"view:strided-obj-only:{sense}", obj=("bin", "+", ("vsum", ev), ("lincomb", [2.0, S("k0")], ev)), sense=sense, cons=[], bounds=ub))
     if tier == "thorough":
         for (t1, f1) in forms:
             for (t2, f2) in forms[::3]:
@@ -223,6 +294,8 @@ def solve_models(tier="quick"):
     add("nlp1-eq", quad, "min", [("eq", ("bin", "+", X, ("bin", "*", ("num", 2.0), Y)), ("num", S("r0")))], bx)
     add("nlp2-infeasible-shape", ("bin", "*", X, X), "min", [("ge", X, ("num", S("r0"))), ("le", X, ("num", S("r1")))], nb)
     add("nlp3", quad, "min", [("ge", X, ("num", S("r0"))), ("le", Y, ("num", S("r1"))), ("eq", ("bin", "*", X, Y), ("num", S("r2")))], bx)
+    # constraint 0 mentions only y: a problem that first saw constraint 0 alone has y in column 0
+    add("nlp-late-x", quad, "min", [("ge", Y, ("num", S("r0"))), ("le", ("bin", "+", X, Y), ("num", S("r1")))], bx)
     add("nlp-rle", quad, "max", [("rle", X, ("num", S("r0"))), ("rge", Y, ("num", S("r1")))], bx)
     add("nlp-exp", ("bin", "+", ("un", "exp", X), ("bin", "*", ("const", S("c1")), Y)), "min", [("ge", ("bin", "+", X, Y), ("num", 1.0))], bx)
     add("nlp-vec", ("bin", "+", ("vsum", ("vpow", v2, 2)), ("const", S("c0"))), "min", [("ge", ("vsum", v2), ("num", S("r0")))], bx)
@@ -238,6 +311,7 @@ def solve_models(tier="quick"):
     add("lp1-le-max", lin, "max", [("le", ("bin", "+", X, Y), ("num", S("r0")))], bx)
     add("lp2-eq", lin, "min", [("eq", ("bin", "-", X, Y), ("num", S("r0"))), ("ge", X, ("num", S("r1")))], nb)
     add("lp3", lin, "max", [("le", X, ("num", S("r0"))), ("ge", Y, ("num", S("r1"))), ("eq", ("bin", "+", X, Y), ("num", S("r2")))], bx)
+    add("lp-late-x", lin, "min", [("le", Y, ("num", S("r0"))), ("ge", ("bin", "+", X, Y), ("num", S("r1")))], bx)
     add("lp-infeasible-shape", X, "min", [("ge", X, ("num", S("r0"))), ("le", X, ("num", S("r1")))], nb)
     add("lp-vec", ("bin", "+", ("lincomb", [S("k0"), S("k1")], v2), ("const", S("c0"))), "min", [("ge", ("vsum", v2), ("num", S("r0")))], bx)
     add("lp-vec-max", ("vsum", v2), "max", [("le", ("lincomb", [S("k0"), S("k1")], v2), ("num", S("r0"))), ("rle", ("velem", v2, 0), ("num", S("r1")))], bx)
